@@ -147,6 +147,7 @@ def run(ctx) -> None:
            'load()/re-initialisation must start from the same template every time', 1)
   ctx.rule('R6', 'state serialised as JSON keeps the order of data-keyed mappings (no sort_keys where the loader iterates)', 4)
   ctx.import_rules('C12', {'R2'}, 'R11', 'the trial loader of a long-lived policy and a restored one deliver the same trials (id bookkeeping complete)')
+  ctx.import_rules('C14', {'R1'}, 'R14', 'what a restored designer re-derives from its stored seed does not depend on the process (no hash(), clock, global RNG)')
   ctx.import_rules('C01', {'R3'}, 'R13', 'the stored study (with the algorithm state) is loaded inside the operation lock of the request that uses it')
   ctx.import_rules('C04', {'R1'}, 'R12', 'the persisted algorithm state is read and written back inside one critical section of the suggest operation')
   ctx.import_rules('C12', {'R6'}, 'R10', 'the hosted policy is rebuilt from the stored state on every request: no policy object is kept by the factory')
